@@ -216,6 +216,7 @@ def validate(v, traces, wd, tag='all'):
     raise common.MachineryError(f'Trace_C16 reported {len(verdicts)} of {len(traces) + 1} lines')
   acc, events = 0, 0
   g = verdicts[0]
+  g['total'] = sum(len(e['seqs']) for t in traces for e in t['events'])
   if g['matched'] != g['total']:
     v.mismatch({'clause': 'sequence-ids-not-globally-unique'},
                {'message': f'{g["total"]} entries carry only {g["matched"]} distinct sequence ids'})
